@@ -149,7 +149,7 @@ func (g *Gen) call(st *State, site ssa.Instruction, c *ssa.CallCommon, rt types.
 				if cs.Name == k {
 					g.calleeUse[cs]++
 					if static != nil {
-						if fs := g.W.specFor(static); fs != nil && !fs.Trusted {
+						if fs := g.W.specFor(static); fs != nil {
 							// the callee has its own (verified) contract: it supplies requires / ensures / frame;
 							// the call-site clause adds ghost updates, extra requires, and extra *assumed* ensures
 							return g.applyFuncSpecWith(st, fs, static, args, rt, cs)
